@@ -53,7 +53,7 @@ def d_entries(l: Any) -> List[Dict[str, Any]]:
             e.update(t='F', k=FK[o[1]], **{'async': bool(o[2])}, doc=clean(d_opt_text(o[3])), ann=None)
         elif o[0] == 1:
             e.update(t='C', k='EXCEPTION' if o[1] else 'CLASS', **{'async': None}, doc=clean(d_opt_text(o[2])), ann=None,
-                     c=d_entries(o[3]), old=[[txt(n), t] for n, t in o[4]])
+                     c=d_entries(o[3]), old=[[txt(n), t] for n, t in o[4]], _m=[[txt(n), t] for n, t in o[5]])
         else:
             e.update(t='A', k=AK[o[1]], **{'async': None}, doc=clean(d_opt_text(o[2])), ann=d_ann(o[3]))
         out.append(e)
@@ -67,7 +67,7 @@ def d_module(m: Any) -> Dict[str, Any]:
 def strip_ok(entries: List[Dict[str, Any]]) -> List[Dict[str, Any]]:
     out = []
     for e in entries:
-        e = {k: v for k, v in e.items() if k != 'ok'}
+        e = {k: v for k, v in e.items() if k not in ('ok', '_m')}
         if 'c' in e:
             e['c'] = strip_ok(e['c'])
         out.append(e)
@@ -440,19 +440,24 @@ def exhaustive(maxlen: int) -> List[Dict[str, Any]]:
 
 
 def cross_module(rng: Any, idx: int) -> Dict[str, Any]:
-    """oracle-only packages: classes deriving from classes imported from a sibling module"""
+    """classes deriving from classes imported from a sibling module (model, pydoctor and CPython all compared)"""
     pkg = 'x%d' % idx
-    base_exc = rng.choice(gen.BUILTIN_EXC)
-    m0 = [[1, 'Base', [base_exc] if rng.random() < 0.6 else [], [S('base'), [0, 'meth', [], False, [S('m')]]]],
+    base_exc = rng.choice(gen.BUILTIN_EXC + gen.NEW_EXC)
+    m0 = [[1, 'Base', [base_exc] if rng.random() < 0.6 else [], [S('base'), [0, 'meth', [], False, [S('m'), [2, [[2, 'iv']], X1]]],
+                                                               [2, [[0, 'cv']], X1]]],
+          [1, 'Mid', ['Base'], [[0, 'other', [], False, []]]],
           [0, 'helper', [], rng.random() < 0.3, [S('h')]]]
-    how = rng.choice(['from %s.m0 import Base as imp_B', 'import %s.m0 as imp_m', 'from %s import m0 as imp_m'])
-    base = 'imp_B' if 'imp_B' in how else 'imp_m.Base'
-    m1 = [[11, ['imp_B' if base == 'imp_B' else 'imp_m'], how % pkg],
-          [1, 'Derived', [base], [S('derived'), [2, [[0, 'attr']], X1]]],
-          [1, 'Third', ['Derived'], []]]
+    how = rng.choice(['from %s.m0 import Base as imp_B', 'import %s.m0 as imp_m', 'from %s import m0 as imp_m', 'from %s.m0 import Mid as imp_B'])
+    if 'imp_B' in how:
+        base, names, refs = 'imp_B', ['imp_B'], [['%s.m0' % pkg, 'Mid' if 'Mid' in how else 'Base']]
+    else:
+        base, names, refs = 'imp_m.' + rng.choice(['Base', 'Mid']), ['imp_m'], [['%s.m0' % pkg, None]]
+    m1 = [[11, names, how % pkg, None, refs],
+          [1, 'Derived', [base], [S('derived'), [2, [[0, rng.choice(['attr', 'meth', 'iv', 'cv', 'other'])]], X1]], [[0, ['deco']]] if rng.random() < 0.3 else []],
+          [1, 'Third', ['Derived'], [[1, 'Inner', [rng.choice(['Derived', base])], [[2, [[0, 'iv']], X1]]]]]]
     return {'pkg': pkg, 'mods': [{'name': '__init__', 'body': [S('pkg')], 'sub': True, 'corr': True},
-                                 {'name': 'm0', 'body': m0, 'sub': True, 'corr': True},
-                                 {'name': 'm1', 'body': m1, 'sub': True, 'corr': False}]}
+                                 {'name': 'm0', 'body': PRELUDE + m0, 'sub': True, 'corr': True},
+                                 {'name': 'm1', 'body': PRELUDE + m1, 'sub': True, 'corr': True}]}
 
 
 def fullname(pkg: str, mod: str) -> str:
@@ -574,17 +579,64 @@ class Check(PropertyCheck):
         a2 = lib.run_impl_worker('c03_cpython.py', payload2, jobs=jobs, seed=self.seed)
         mod: Dict[Tuple[int, str], Any] = {}
         if with_model:
-            lines = []
-            keys = []
-            for i, p in enumerate(pkgs):
-                for m in p['mods']:
-                    lines.append(enc([0, m['body']]))
-                    lines.append(enc([1, m['body']]))
-                    keys.append((i, m['name']))
-            res = self.model('builder', lines)
-            for j, k in enumerate(keys):
-                mod[k] = (dec(res[2 * j]), dec(res[2 * j + 1]))
+            mod = self.model_rounds(pkgs)
         return a1, a2, mod
+
+    def model_rounds(self, pkgs: List[Dict[str, Any]]) -> Dict[Tuple[int, str], Any]:
+        """Runs the extracted model on every module; a module that imports from another module of its package is run after
+        it, with the import statement annotated by what the model found there (resolved-bases oracle)."""
+        mod: Dict[Tuple[int, str], Any] = {}
+        where = {}
+        for i, p in enumerate(pkgs):
+            for m in p['mods']:
+                where[fullname(p['pkg'], m['name'])] = (i, m['name'])
+        pending = [(i, m) for i, p in enumerate(pkgs) for m in p['mods']]
+
+        def imports_of(m: Dict[str, Any]) -> List[Any]:
+            return [s for s in all_stmts(m['body']) if s[0] == 11 and len(s) > 4 and s[4]]
+
+        def info_for(ref: Any) -> Any:
+            if not ref:
+                return [0]
+            k = where.get(ref[0])
+            if k is None or k not in mod:
+                return None
+            doc = d_module(mod[k][0])
+            classes = [[e['n'], e['k'] == 'EXCEPTION', e['_m']] for e in doc['c'] if e['t'] == 'C']
+            if ref[1] is None:
+                return [2, classes]
+            for n, x, ms in classes:
+                if n == ref[1]:
+                    return [1, x, ms]
+            return [0]
+        for _ in range(8):
+            if not pending:
+                break
+            ready, later = [], []
+            for i, m in pending:
+                ok = True
+                for s in imports_of(m):
+                    infos = [info_for(r) for r in s[4]]
+                    if any(x is None for x in infos):
+                        ok = False
+                        break
+                    s[3:4] = [infos]
+                (ready if ok else later).append((i, m))
+            if not ready:                      # circular / unknown reference: run without information
+                for i, m in later:
+                    for s in imports_of(m):
+                        s[3:4] = [[[0]] * len(s[1])]
+                ready, later = later, []
+            lines = []
+            for i, m in ready:
+                w = mp.to_wire(m['body'])
+                lines.append(enc([0, w]))
+                lines.append(enc([1, w]))
+            res = self.model('builder', lines)
+            for j, (i, m) in enumerate(ready):
+                mod[(i, m['name'])] = (dec(res[2 * j]), dec(res[2 * j + 1]))
+            pending = later
+        return mod
 
     def judge(self, pkgs: List[Dict[str, Any]], a1: List[Any], a2: List[Any], mod: Dict[Tuple[int, str], Any],
               out: List[Violation], count: bool = True) -> None:
@@ -608,13 +660,16 @@ class Check(PropertyCheck):
                     continue
                 spec_ok = None
                 if (i, m['name']) in mod:
-                    mdoc, (mpy, strict) = mod[(i, m['name'])]
+                    mdoc, (mpy, names_ok, strict) = mod[(i, m['name'])]
                     spec_ok = mpy[0] == 1
+                    if count and names_ok:
+                        self.count('py_exec_names_accepts')
                     if count and strict:
                         self.count('py_exec_strict_accepts')
                     # --- correspondence: Model.Builder.doc_walk vs the real builder
                     if m.get('corr', True):
                         want = d_module(mdoc)
+                        want['c'] = strip_ok(want['c'])
                         got = {'doc': doc_impl['doc'], 'c': strip_ok(doc_impl['c']), 'old': doc_impl['old']}
                         if py_impl is not None and str(py_impl.get('error', '')).startswith(('NameError', 'TypeError')):
                             # a base class that is not (yet) a class when the class statement runs: pydoctor re-resolves such bases
